@@ -2,17 +2,18 @@
 # matrix.sh [tier]: every seeded change against the check of its own property, each in its own scratch worktree of /repo HEAD
 # (checks run with --repo <worktree>; /repo itself is not touched). Results -> selftest/RESULTS.md
 tier=${1:-quick}; pat=${2:-.}
-mkdir -p /tmp/mx; out=/verif/selftest/RESULTS${2:+_part}.md
+V=$(cd "$(dirname "$0")/.." && pwd); export V   # the verification tree this script belongs to (works from a vp-run snapshot too)
+MX=${MX:-/tmp/mx}; export MX; mkdir -p $MX; out=$V/selftest/RESULTS${2:+_part}.md
 run_one() {
-  id=$1; prop=${id:0:3}; wt=/tmp/mx/$id
+  id=$1; prop=${id:0:3}; wt=$MX/$id
   rm -rf $wt; git -C /repo worktree add -f -q $wt HEAD || { echo "| $id | $prop | worktree failed |"; return; }
-  if ! git -C $wt apply /verif/seeded/$id/patch.diff 2>/dev/null; then echo "| $id | $prop | patch does not apply |"; git -C /repo worktree remove --force $wt; return; fi
-  cd /verif && VERIF_KEEP= /venv/bin/python harness/check.py $prop --tier $2 --repo $wt > /tmp/mx/$id.log 2>&1; rc=$?
-  cl=$(grep 'failed clause' /tmp/mx/$id.log | sed 's/.*failed clause \([A-Za-z0-9_.]*\):.*/\1/' | sort -u | head -4 | tr '\n' ' ')
-  echo "| $id | $prop | exit $rc | $(grep -c '^VIOLATION' /tmp/mx/$id.log) | $cl |"
+  if ! git -C $wt apply $V/seeded/$id/patch.diff 2>/dev/null; then echo "| $id | $prop | patch does not apply |"; git -C /repo worktree remove --force $wt; return; fi
+  cd $V && VERIF_KEEP= /venv/bin/python harness/check.py $prop --tier $2 --repo $wt > $MX/$id.log 2>&1; rc=$?
+  cl=$(grep 'failed clause' $MX/$id.log | sed 's/.*failed clause \([A-Za-z0-9_.]*\):.*/\1/' | sort -u | head -4 | tr '\n' ' ')
+  echo "| $id | $prop | exit $rc | $(grep -c '^VIOLATION' $MX/$id.log) | $cl |"
   git -C /repo worktree remove --force $wt
 }
 export -f run_one
 { echo "# Seeded changes vs checks ($tier tier, $(date -u +%FT%TZ), repo $(git -C /repo rev-parse --short HEAD))"; echo; echo "| seed | property | check exit | VIOLATION lines | failing clauses |"; echo "|---|---|---|---|---|"; 
-  ls /verif/seeded | grep -E "$pat" | xargs -P 3 -I{} bash -c "run_one {} $tier" | sort; } > $out.tmp && mv $out.tmp $out
+  ls $V/seeded | grep -E "$pat" | xargs -P 3 -I{} bash -c "run_one {} $tier" | sort; } > $out.tmp && mv $out.tmp $out
 cat $out
